@@ -194,9 +194,21 @@ def gen_c07_warm_refit(rng):
             "mode": "tol" if lin else "exact", "reward_style": style}
     return {"base": base, "d_old": (d if lin else None), "seed2": rng.randint(0, 10**9), "same_width": True}
 
+def gen_c07_other_width(rng):
+    """a contextual bandit (TreeBandit half of the time) trained on every arm, then re-fitted by run_c07 on a data set of ANOTHER
+    width that leaves the first trained arm out: nothing fitted before the call - a tree, a feature count - may decide whether the
+    calls after the re-fit are accepted."""
+    nps = ["tree"] if rng.random() < 0.5 else ["tree", "radius", "knearest", "lsh", "clusters", "none"]
+    base = gen.gen_ctx_case(rng, nps=nps, max_ops=rng.choice([1, 1, 2, 3]), warm=False, max_rows=25, arm_changes=False, fit_prob=0.0)
+    first = base["ops"][0]
+    return {"base": base, "d_old": len(first[3][0]), "seed2": rng.randint(0, 10**9), "new_width": True, "leave_out": True}
+
 def gen_c07(rng, tier):
-    if rng.random() < 0.1:
+    z = rng.random()
+    if z < 0.1:
         return gen_c07_warm_refit(rng)
+    if z < 0.22:
+        return gen_c07_other_width(rng)
     ctx = rng.random() < 0.6
     if ctx:
         base = gen.gen_ctx_case(rng, max_ops=5, warm=True, max_rows=25)
@@ -237,7 +249,16 @@ def run_c07(t):
         keep_out = [a for a in cur if st.get(a, (False, False, None))[1]] or [a for a in cur if st.get(a, (False, False, None))[0]][:1]
     except Exception:
         keep_out = []
-    if keep_out and (t.get("same_width") or rng.random() < 0.6):
+    if t.get("leave_out") and not keep_out:
+        # neighbourhood policies keep no per-arm status: leave out the first arm (in arm order) that the history observed
+        seen = set()
+        for o, r in zip(base["ops"], outs):
+            if o[0] in ("fit", "pfit") and r[0] == "done":
+                seen = (set() if o[0] == "fit" else seen) | set(o[1])
+        keep_out = [a for a in cur if a in seen][:1]
+        if len(cur) < 2:
+            keep_out = []
+    if keep_out and (t.get("same_width") or t.get("leave_out") or rng.random() < 0.6):
         pool = [a for a in cur if a not in keep_out] or cur
         ds = [rng.choice(pool) for _ in range(n)]
     if lp[0] == "thompson" and lp[1] is None:
@@ -248,6 +269,8 @@ def run_c07(t):
         cx = None
     else:
         d_new = d_old if (t.get("same_width") or rng.random() < 0.6) else max(1, d_old + rng.choice([-1, 1, 2]))
+        if t.get("new_width"):
+            d_new = d_old + rng.choice([1, 2]) if d_old == 1 else d_old + rng.choice([-1, 1])
         cx = gen.gen_ctx(rng, n, d_new)
         if base.get("np") and base["np"][0] == "clusters":
             for i in range(min(n, 4)):
@@ -261,6 +284,13 @@ def run_c07(t):
         if cx is not None and rng.random() < 0.5:
             q[0] = list(rng.choice(cx))
         qs.append((rng.choice(["pred", "pexp"]), q))
+    # training goes on after the re-fit: a partial_fit of D's width (and one more query) must be treated alike by both bandits
+    n2 = rng.randint(2, 4)
+    ds2 = [rng.choice(sorted(set(ds))) for _ in range(n2)]
+    rs2 = [float(rng.randint(0, 1)) for _ in range(n2)] if (lp[0] == "thompson" and lp[1] is None) else [draw() for _ in range(n2)]
+    cx2 = None if cx is None else gen.gen_ctx(rng, n2, d)
+    qs.append(("pfit", ds2, rs2, cx2))
+    qs.append((rng.choice(["pred", "pexp"]), None if cx is None else gen.gen_ctx(rng, rng.choice([1, 2]), d)))
     fresh_case = dict(base); fresh_case["arms"] = cur; fresh_case["lp"] = lp; fresh_case["ops"] = []
     fresh, label2, inv2 = mwh.build_mab(fresh_case)
     # the same random-stream position before fit(D)
@@ -1797,7 +1827,7 @@ def gen_c18_small_ints(rng):
     d = rng.randint(1, 3)
     arms = rng.sample(range(1, 9), 2)
     lp = (kind, 0.0 if kind == "lingreedy" else 0.5, rng.choice([0.5, 1.0, 2.0]), rng.random() < 0.3, True)
-    hi = rng.choice([1, 9, 20, 4000, 30000])
+    hi = rng.choice([1, 9, 20, 30000, 50000, 40000])
     rc = lambda n: [[float(rng.randint(0, hi)) for _ in range(d)] for _ in range(n)]
     n0 = rng.randint(20, 40)
     ops = [("fit", [rng.choice(arms) for _ in range(n0)], [float(rng.randint(0, 9)) for _ in range(n0)], rc(n0)), ("pexp", rc(3))]
@@ -1811,7 +1841,7 @@ def gen_c18(rng, tier):
     z0 = rng.random()
     if z0 < 0.08:
         return gen_c18_inplace(rng)
-    if z0 < 0.14:
+    if z0 < 0.18:
         return gen_c18_small_ints(rng)
     z = rng.random()
     if z < 0.35:
